@@ -540,6 +540,19 @@ probe(decoder_t *d, char *dstream, char *dbatch, size_t n)
 }
 
 static char REF_STREAM[DIGN], REF_BATCH[DIGN];
+/* C16: a word added at run time must behave exactly like the same word read from the dictionary file */
+static const char *const ADDABLE[3][3] = { { "zed", "Z EH D", "zed" }, { "zed2", "Z EH D", "zed2" }, { "go(2)", "G AH", "go" } }; /* word, phones, JSGF token */
+static char REF_ADDED[3][DIGN];
+static int
+decode_with_word(decoder_t *d, int k, char *buf, size_t n)
+{
+    char g[256];
+    snprintf(g, sizeof g, "#JSGF V1.0; grammar x; public <s> = go %s;", ADDABLE[k][2]);
+    if (decoder_set_jsgf_string(d, g) < 0 || decoder_start_utt(d) < 0 || decoder_process_int16(d, AUD_A, N_A, 0, 1) < 0 || decoder_end_utt(d) < 0)
+        return -1;
+    digest(d, buf, n);
+    return 0;
+}
 static size_t BASELINE_ALLOC;
 static int HAVE_BASELINE;
 
@@ -666,6 +679,28 @@ run_hist(const hist_t *h)
                                 wid >= 0 ? dict_basestr(D->dict, wid) : "(missing)");
                         goto out;
                     }
+                }
+                /* ... and it decodes exactly as the same word read from a dictionary file does (only when it is the only
+                 * addition: the reference dictionaries hold one extra word each) */
+                if (m.nadded == 1) {
+                    int k;
+                    static char got[DIGN];
+                    for (k = 0; k < 3; k++)
+                        if (strcmp(ADDABLE[k][0], m.added[i].word) == 0) {
+                            if (decode_with_word(D, k, got, sizeof got) < 0) {
+                                mc_viol("C16/added-word-not-usable", cd, "decoding with the added word %s failed", m.added[i].word);
+                                goto out;
+                            }
+                            if (strcmp(got, REF_ADDED[k]) != 0) {
+                                size_t z = 0;
+                                while (got[z] && got[z] == REF_ADDED[k][z])
+                                    z++;
+                                z = z > 80 ? z - 80 : 0;
+                                mc_viol("C16/added-word-decodes-differently-from-the-same-word-in-the-dictionary-file", cd,
+                                        "word %s added at run time: ...%.300s | read from the file: ...%.300s", m.added[i].word, got + z, REF_ADDED[k] + z);
+                                goto out;
+                            }
+                        }
                 }
             }
         if (P_C08) {
@@ -836,6 +871,28 @@ main(int argc, char **argv)
         if (rc < 0) {
             fprintf(stderr, "probe failed on a fresh decoder (%d)\n", rc);
             return 2;
+        }
+    }
+    if (P_C16) {
+        /* one reference decoder per addable word, its dictionary FILE holding the base dictionary plus that word */
+        int k;
+        for (k = 0; k < 3; k++) {
+            char saved[sizeof DICT_PATH];
+            decoder_t *f;
+            FILE *fp;
+            memcpy(saved, DICT_PATH, sizeof saved);
+            snprintf(DICT_PATH, sizeof DICT_PATH, "%s.ref%d", saved, k);
+            fp = fopen(DICT_PATH, "w");
+            fprintf(fp, "%s%s %s\n", DICT_TEXT, ADDABLE[k][0], ADDABLE[k][1]);
+            fclose(fp);
+            f = make_decoder();
+            unlink(DICT_PATH);
+            memcpy(DICT_PATH, saved, sizeof saved);
+            if (decode_with_word(f, k, REF_ADDED[k], sizeof REF_ADDED[k]) < 0) {
+                fprintf(stderr, "reference decode with %s failed\n", ADDABLE[k][0]);
+                return 2;
+            }
+            decoder_free(f);
         }
     }
     fprintf(mc_fp, "{\"t\":\"note\",\"v\":\"warm\"}\n");
